@@ -271,6 +271,27 @@ def run(ctx):
                 continue
             ctx.count("malformed/" + name)
             ctx.count("configurations/ok")
+    # --- the bottom of the float range: totals of a few units of 2^-1074.  The products u * total are rounded to whole units
+    # there, so no particular element is demanded - only that the call still ends with a member of positive weight, the same
+    # one for weights and running totals, and with the malformed-argument errors where they are due
+    tiny = 5e-324
+    for ti, (tpop, tw) in enumerate([(["only"], [tiny]), (["a", "b"], [tiny, tiny]), (["a", "b", "c"], [tiny, 0, 2 * tiny]),
+                                     (["a", "b", "c", "d"], [0, 3 * tiny, 0, tiny]), (list(range(8)), [tiny] * 8)]):
+        if not ctx.mine(ti):
+            continue
+        for j in range(200):
+            uid = "t%d" % j if j % 3 else rnd.choice(gold_ids)
+            r_a = outcome(real, uid, tpop, list(tw))
+            r_b = outcome(real, uid, tpop, cum_weights=list(accumulate(tw)))
+            ctx.evaluated(2)
+            ctx.nontrivial("subnormal", ti, uid)
+            okk = r_a[0] == "ok" and any(x is r_a[1] or x == r_a[1] for x, wgt in zip(tpop, tw) if wgt > 0)
+            if not okk or not same_result(r_a, r_b):
+                ctx.violation("subnormal-total", dict(input_id=uid, population=tpop, weights=[repr(x) for x in tw], weights_result=repr(r_a)[:100],
+                                                      cum_result=repr(r_b)[:100]), mechanism="C16/valid-call-raised" if r_a[0] != "ok" else "C16/wrong-element")
+                break
+        else:
+            ctx.count("subnormal-totals/ok")
     # --- aliasing histories: the caller re-uses (and edits in place) the very objects it passed before ---------------
     # Every call must be judged on the *current* contents of its arguments: the result has to equal the result of the
     # same call made with fresh copies.
@@ -367,6 +388,24 @@ def run(ctx):
                           mechanism="C16/random-branch")
         else:
             ctx.count("random-branch/configurations-ok")
+    if ctx.shard == 0:
+        pop = ["a", "b", "c"]
+        for name, kw in (("cum-short", dict(cum_weights=[1, 2])), ("cum-long", dict(cum_weights=[1, 2, 3, 4])), ("cum-total-zero", dict(cum_weights=[0, 0, 0])),
+                         ("weights-short", dict(weights=[1, 2])), ("total-zero", dict(weights=[0, 0, 0])), ("both-kinds", dict(weights=[1, 1, 1], cum_weights=[1, 2, 3])),
+                         ("cum-total-inf", dict(cum_weights=[1, 2, float("inf")]))):
+            try:
+                _random.choices(pop, k=1, **kw)
+                continue
+            except Exception as e:  # noqa: BLE001
+                want = type(e).__name__
+            r = outcome(real, None, pop, **kw)
+            ctx.evaluated()
+            ctx.nontrivial("random-malformed", name)
+            if r[0] != "exc" or r[1] != want:
+                ctx.violation("documented-error-not-raised", dict(input_id=None, malformed=name, expected=want, got=repr(r)[:120]),
+                              mechanism="C16/documented-error-not-raised")
+            else:
+                ctx.count("random-branch/malformed-refused")
     ctx.sample(dict(input_id="g1912706679", population=["a", 0, None], weights=["1", "0", "2.5"], forms=["weights", "cum_weights", "none"]))
 
 
